@@ -27,7 +27,8 @@ fn make_case(args: &Args, case: u64, miri: bool) -> SchedCase {
         variant = 1000 + (case / 97 % 12) as u32;
     }
     let plan = sched::draw_plan(&mut rng, &sites, miri);
-    SchedCase { workload: wl.into(), seed: args.seed, case, threads, ops, variant, plan }
+    let leak_checked = matches!(args.get_str("leg"), Some("asan") | Some("miri") | Some("miri-weakmem") | Some("memcheck"));
+    SchedCase { workload: wl.into(), seed: args.seed, case, threads, ops, variant, plan, no_drop_race: leak_checked }
 }
 
 fn main() {
